@@ -7,7 +7,7 @@
    greatest (size, call_file, call_line, origin) answers; Function values, and hence every
    symbolication, do not depend on the order of the INLINE records inside a FUNC block. *)
 From Coq Require Import Lia Sorting.Sorted Sorting.Permutation.
-From RM Require Import C08.Model C08.Proofs C11.Model C11.Proofs1 C11.Proofs2 C11.Proofs6.
+From RM Require Import C08.Model C08.Proofs C11.Model C11.Proofs1 C11.Proofs2 C11.Proofs3 C11.Proofs5 C11.Proofs6.
 Open Scope Z_scope.
 
 (* ------------------------------------------------------------------ the derived order is total *)
@@ -209,4 +209,53 @@ Proof.
   { unfold kept. apply filter_In. split; [exact Hin|]. apply Z.ltb_lt. exact Hsz. }
   specialize (Hmax e' Hin' Hk'). unfold inl_lt, inl_key in Hmax. cbn [lex_lt] in Hmax |- *.
   rewrite Hd, Ha, !Z.ltb_irrefl, !Z.eqb_refl in Hmax. cbn [orb andb] in Hmax. exact Hmax.
+Qed.
+
+(* ------------------------------------------------------------------ the whole inline chain, exactly *)
+(* element k of the chain fill_symbol walks (k <= its length; k = length is the lookup that ends the loop)
+   is the lookup at depth k *)
+Lemma inl_chain_nth f x k : (k <= length (inl_chain f x))%nat ->
+  nth_error (inl_chain f x) k = giad_pure (fn_inls f) (Z.of_nat k) x.
+Proof.
+  unfold inl_chain. destruct (giad_pure (fn_inls f) 0 x) as [e0|] eqn:E0.
+  - cbn [length]. intros Hk. destruct k as [|k]; [cbn [nth_error]; rewrite <- E0; reflexivity|].
+    cbn [nth_error]. set (cf := chain_from (length (fn_inls f)) (fn_inls f) x 1) in *.
+    replace (Z.of_nat (S k)) with (1 + Z.of_nat k) by lia.
+    destruct (nth_error cf k) as [e|] eqn:En.
+    + symmetry. exact (chain_from_spec _ _ _ _ _ _ En).
+    + apply nth_error_None in En. assert (k = length cf) by lia. subst k.
+      symmetry. apply chain_from_stops. apply (chain_short _ _ _ E0).
+  - cbn [length]. intros Hk. assert (k = 0%nat) by lia. subst k. cbn [nth_error]. rewrite <- E0. reflexivity.
+Qed.
+
+(* … and that lookup is the declarative one: for the Function finished from ANY FUNC block [fr], at every
+   depth k up to and including the one that ends the loop, the chain holds the greatest kept record at or
+   below (k, x) when it has depth k and covers x, and ends there otherwise *)
+Lemma inl_chain_exact fr x k c :
+  (k <= length (inl_chain (fin_func true fr) x))%nat -> nearest (kept fr) (Z.of_nat k) x c ->
+  nth_error (inl_chain (fin_func true fr) x) k = giad_check (Z.of_nat k) x c.
+Proof.
+  intros Hk Hc. rewrite (inl_chain_nth _ _ _ Hk).
+  pose proof (inlinee_lookup_exact fr (Z.of_nat k) x c Hc) as E. rewrite giad_ret in E. inversion E. reflexivity.
+Qed.
+
+(* the inline frames fill_symbol emits, with the chain given declaratively (no algorithm, no record order) *)
+Lemma inline_chain_exact p rf mbase instr :
+  wf_file rf -> 0 <= mbase -> instr < two64 ->
+  exists st o, build_symtab rf = Ret st /\ symbolize p rf mbase instr = Ret o /\
+    (o_inl o <> [] ->
+     exists fr chain, In fr (rf_funcs rf) /\ func_covers fr (instr - mbase) = true /\
+       (forall k c, (k <= length chain)%nat -> nearest (kept fr) (Z.of_nat k) (instr - mbase) c ->
+                    nth_error chain k = giad_check (Z.of_nat k) (instr - mbase) c) /\
+       o_inl o = frames_spec st chain (rm_get (fn_lines (fin_func true fr)) (instr - mbase))).
+Proof.
+  intros Hwf Hmb Hin. destruct (symbolize_cases true p rf mbase instr Hwf Hmb Hin) as (st & o & Hrel & Hb & Hs & Hc).
+  exists st, o. split; [exact Hb|]. split; [exact Hs|]. intros Hne.
+  destruct Hc as [[Hlt ->]|[(Hge & fr & Hfr & Hcov & Ha & _ & ->)|(Hge & Hg & ->)]].
+  - exfalso. apply Hne. reflexivity.
+  - destruct (fill_func_spec true rf st mbase (instr - mbase) fr Hwf Hrel Hfr Hmb Ha) as (_ & _ & Hinl).
+    exists fr, (inl_chain (fin_func true fr) (instr - mbase)).
+    split; [assumption|]. split; [assumption|]. split; [|exact Hinl].
+    intros k c Hk Hc. apply inl_chain_exact; assumption.
+  - exfalso. apply Hne. apply (proj2 (fill_public_shape st mbase (instr - mbase))).
 Qed.
